@@ -102,7 +102,16 @@ func (p *Printer) printTransaction(t *model.Transaction) (n int, err error) {
 }
 
 func (p *Printer) printPosting(t *model.Posting) (int, error) {
-	return fmt.Fprintf(p, "%-*s %-*s %10s %s", p.padding, t.Other.String(), p.padding, t.Account.String(), t.Quantity.String(), t.Commodity.Name())
+	return fmt.Fprintf(p, "%s %s %10s %s", padRight(t.Other.String(), p.padding), padRight(t.Account.String(), p.padding), t.Quantity.String(), t.Commodity.Name())
+}
+
+// padRight appends blanks to s until it is n runes wide (a width verb such
+// as %-*s is rejected by fmt when the width exceeds 1e6).
+func padRight(s string, n int) string {
+	if l := utf8.RuneCountInString(s); l < n {
+		return s + strings.Repeat(" ", n-l)
+	}
+	return s
 }
 
 func (p *Printer) printOpen(o *model.Open) (int, error) {
